@@ -524,8 +524,10 @@ void cyc_case_in(Cont &cont, i64 len, i64 start, i64 n, i64 op)
   if (op == 8)
     for (i64 k = 0; k < an; ++k)
     {
+      cyc const before = res;
       cyc const old = n > 0 ? res++ : res--;
-      (void)old;
+      // it++ / it-- return the position before the step (standard iterator requirement)
+      if (!(old == before) || inside(old) != inside(before)) { fail(n > 0 ? "cyclic_iterator|post-increment|returns-new-position" : "cyclic_iterator|post-decrement|returns-new-position", ctx() + ": post-step " + str(k + 1) + " did not return the previous position"); return; }
       if (inside(res) < 0) { fail("cyclic_iterator|left-boundary|single steps", ctx() + ": after " + str(k + 1) + " post-steps the iterator is outside [first, last)"); return; }
     }
   i64 const at = inside(res);
